@@ -356,6 +356,21 @@ def run(chk):
         build_and_check(chk, sc, fmt, k, k % 2 == 0, {"scenario": seqs, "share": sorted(share)}, share=share, same_vb=(0, 0, 100, 100))
         chk.case(key=("share", k), nontrivial=True)
         chk.traces_validated += 1
+    # qualified / unqualified twins: two sources whose sequences differ ONLY by U+FE0F (in the middle, at the end, twice),
+    # in either input order and next to their own single codepoints; each must shape to its own glyph
+    twins = [(["1f3f3", "fe0f", "200d", "1f308"], ["1f3f3", "200d", "1f308"]),
+             (["1f468", "200d", "2764", "fe0f", "200d", "1f468"], ["1f468", "200d", "2764", "200d", "1f468"]),
+             (["1f441", "fe0f", "200d", "1f5e8", "fe0f"], ["1f441", "200d", "1f5e8"]),
+             (["1f469", "200d", "2708", "fe0f"], ["1f469", "200d", "2708"])]
+    for k, (qual, unqual) in enumerate(twins if not quick else twins[:3]):
+        for j, fmt in enumerate(["glyf_colr_1", "picosvg", "cbdt"] if not quick else [["glyf_colr_1", "picosvg", "glyf_colr_0"][k % 3]]):
+            for order in (0, 1):
+                seqs = [qual, unqual] if order == 0 else [unqual, qual]
+                seqs = seqs + ([[qual[0]]] if (k + order) % 2 else [])
+                sc = {"srcs": seqs, "phase": "done", "names": []}
+                build_and_check(chk, sc, fmt, 1000 + 10 * k + order, order == 0, {"scenario": seqs, "family": "fe0f-twins"})
+                chk.case(key=("fe0f-twins", k, fmt, order), nontrivial=True)
+                chk.traces_validated += 1
     long_names(chk)
     chk.assumptions += ["artwork identity is decided by a source-unique rectangle (bounds within 3 units) / PNG bytes"]
 
